@@ -39,14 +39,17 @@ func c20Kinds() []c20Kind {
 		{"where-analytic-over", "SELECT a FROM stream WHERE lag(a) OVER (PARTITION BY k) > 0 OR a > 0", true, false},
 		{"global-window", "SELECT k, sum(a) AS s FROM stream GROUP BY k, GLOBAL WINDOW TRIGGER WHEN count(*) >= 2", false, false},
 		{"session", "SELECT k, count(*) AS c, collect(d) AS ds FROM stream GROUP BY k, SessionWindow('2s') WITH (TIMESTAMP='ts', TIMEUNIT='ms')", false, false},
+		// unnest hands array elements on: elements that are maps must not be written to
+		{"unnest", "SELECT k, a, unnest(arr) AS el FROM stream", true, false},
+		{"unnest-objects", "SELECT k, s, unnest(objs) FROM stream", true, false},
 		{"cep", "SELECT * FROM stream MATCH_RECOGNIZE (PARTITION BY k ORDER BY ts MEASURES LAST(a) AS la, FIRST(d.x) AS fx ALL ROWS PER MATCH PATTERN (A B) DEFINE A AS a > 0, B AS a > 0)", false, false},
 	}
 }
 
 func c20Rows() []Row {
 	return []Row{
-		{"k": "a", "a": 1, "s": "x", "ts": 100, "d": map[string]any{"x": 1, "in": map[string]any{"y": 2}}, "arr": []any{1, map[string]any{"z": 3}}},
-		{"k": "a", "a": 2, "s": "y", "ts": 200, "d": map[string]any{"x": 5}, "arr": []any{}},
+		{"k": "a", "a": 1, "s": "x", "ts": 100, "d": map[string]any{"x": 1, "in": map[string]any{"y": 2}}, "arr": []any{1, map[string]any{"z": 3}}, "objs": []any{map[string]any{"p": 1}, map[string]any{"p": 2, "q": map[string]any{"r": 1}}}},
+		{"k": "a", "a": 2, "s": "y", "ts": 200, "d": map[string]any{"x": 5}, "arr": []any{}, "objs": []any{map[string]any{"p": 3}}},
 		{"k": "b", "a": 2.5, "s": nil, "ts": 300, "d": map[string]any{}, "arr": []any{"q"}},
 		{"k": "b", "a": 3, "ts": 400},
 		{"k": "zz", "a": 0, "s": "flush", "ts": 90000, "d": map[string]any{"x": 0}},
@@ -309,7 +312,7 @@ func (c20) Run(u fw.Unit) fw.Result {
 func (c20) Describe(tier string) fw.Description {
 	return fw.Description{
 		Level: "model_checking",
-		Rule: "(a) immutability: 15 query kinds (projection, *, SELECT-analytic, WHERE-analytic with and without OVER, OVER, changed_cols, JOIN, function-expression group key, counting, tumbling, session, global window, MATCH_RECOGNIZE, CASE) x {Emit, EmitSync} x rows with nested maps and slices: a deep snapshot of every caller map before the call must equal it after quiescence, and every batch handed to a sink must still read the same at the end; (b) independence: 12 instance pairs (same SQL; nth_value(v,1) vs (v,2); percentile(v,0) vs (v,1); the same expression text over differently typed rows; analytic; LIKE; CASE vs string concatenation) x all input sequences of length 1..L per instance x ALL interleavings of the two inputs at operation granularity in one process, compared with each instance alone after VerifResetGlobals(); non-trivial = some output exists",
+		Rule: "(a) immutability: 17 query kinds (unnest over scalars and over objects, projection, *, SELECT-analytic, WHERE-analytic with and without OVER, OVER, changed_cols, JOIN, function-expression group key, counting, tumbling, session, global window, MATCH_RECOGNIZE, CASE) x {Emit, EmitSync} x rows with nested maps and slices: a deep snapshot of every caller map before the call must equal it after quiescence, and every batch handed to a sink must still read the same at the end; (b) independence: 12 instance pairs (same SQL; nth_value(v,1) vs (v,2); percentile(v,0) vs (v,1); the same expression text over differently typed rows; analytic; LIKE; CASE vs string concatenation) x all input sequences of length 1..L per instance x ALL interleavings of the two inputs at operation granularity in one process, compared with each instance alone after VerifResetGlobals(); non-trivial = some output exists",
 		Bounds:      map[string]any{"max_len_per_instance": map[string]int{"quick": 2, "thorough": 3}},
 		Assumptions: []string{"interleaving at Emit granularity under the eager deterministic schedule; finer interleavings of two instances' goroutines are not explored (they share only the function registry and the expression caches, whose internal synchronisation is in the quiet packages)"},
 	}
